@@ -30,12 +30,12 @@ CHECKS = {
          "Leaf bound 3/4; infinite streams judged on a bounded prefix only.",
          "4/C06"),
  "C07": ("exhaustive engine exploration, bounded liveness under a step budget (E4 + hook H2)",
-         "All disjunctions of 2-3 (thorough 2-4) branches (also wrapped in dfs{} and as dfs{[branch, leaf]}) drawn from finite / infinitely producing / silently diverging scripted goals, in conde, binary Disj, nested conde and loop{} form and five positions: every answer a branch gives alone after s steps appears in the whole program within 64*2^(k*depth)*(s+1) engine steps.",
-         "Fairness as bounded liveness; the step bound is part of the claim.",
+         "All disjunctions of 2-3 (thorough 2-4) branches (also wrapped in dfs{} and as dfs{[branch, leaf]}) drawn from finite / infinitely producing / silently diverging scripted goals, in conde, binary Disj, nested conde and loop{} form and five positions: every answer a branch gives alone after s steps appears in the whole program within 64*2^(k*depth)*(s+1) engine steps. Long horizon: always() / never() / loop{} generators in disjunctions through the public query iterator on a 2 MiB stack for 10^5 (thorough 10^6) answers: every branch keeps its fair share, the search never stops yielding (budget, panic, stack exhaustion).",
+         "Fairness as bounded liveness; the step bound and the horizon are part of the claim.",
          "4/C07"),
  "C08": ("exhaustive engine exploration of clause lists, committed-choice reference with engine-order differential (E4)",
          "All conda/condu clause lists of 1-3 clauses and onceo bodies whose heads/rests are scripted (0/1/many answers, lazily produced, infinite, diverging) or the static Goal::succeed()/Goal::fail() objects are compared with the soft-cut / committed-choice semantics; the head's first answer in engine order is obtained from the engine by running the head alone.",
-         "Heads are leaves or two-leaf conde/conj/disj trees; matcha/matchu share Conda/Condu::from_conjunctions (their surface form is covered by C13).",
+         "Heads are leaves or two-leaf conde/conj/disj trees; the alternative build goes through the matcha/matchu operator entry points (their surface form is covered by C13).",
          "4/C08"),
  "C09": ("E2 schedule exploration for determinism + bounded-liveness runs through the public iterator (E2 + E4)",
          "(a)(b) every disjunction of 1-3 branches from finite goals, loop{} producers, loop{false} divergers, nested conde, producers behind closures, dfs{} blocks whose first goal diverges silently / rejects every candidate of an infinite producer / produces for ever, at top level / under fresh / after an always-like prefix / as binary Disj, through Query::run: take(n) delivers n answers within the step budget whenever n exist; finite programs end with exactly their answers and stay ended. (c) FD programs with >= 2 constraints, hidden-FD-variable programs and multi-binding disequality programs run twice unscheduled and under every schedule of all 8 hooked hash-iteration sites with <= d deviations plus all-reversed: identical canonical answer sequences.",
@@ -98,8 +98,8 @@ CHECKS = {
          "Coverage is the union of the other checks' coverage at the same tier. One known finding (project).",
          "4/C23"),
  "C24": ("bounded-exhaustive argument modes of every list relation vs Vec definitions on ground instances (E3)",
-         "member, member1, append, rember, permute, distinct, cons, first, rest, empty in every combination of ground / partially ground / fresh arguments over short lists on {1,2,3} (plus aliased arguments): every instance of every answer satisfies the Vec definition; every satisfying ground tuple of a small universe is covered by an answer; member one answer per position, member1 one per distinct value.",
-         "Non-terminating modes judged on 120 answers / 400000 steps; instances that put a non-list where a list is expected are not judged. One known finding (permute).",
+         "member, member1, append, rember, permute, distinct, cons, first, rest, empty in every combination of ground / partially ground / fresh arguments over short lists on {1,2,3} (plus aliased arguments): every instance of every answer satisfies the Vec definition; every satisfying ground tuple of a small universe is covered by an answer; member one answer per position, member1 one per distinct value; arguments that cannot be lists as written ([1 | 7], 7) in the positions permute / append / distinct walk to the end have no answer.",
+         "Non-terminating modes judged on 120 answers / 400000 steps; instances that put a non-list into an open tail the relation never reaches are not judged. One known finding (permute).",
          "4/C24"),
 }
 NOT_APPLICABLE = {}
